@@ -1,16 +1,21 @@
 from props import KERNEL_TB, HARNESS_TB, DEC_TB
-from props.C01 import VAULT_TB, VAULT_ASSUME
+from props.C01 import VAULT_TB, VAULT_ASSUME, EFFECTS_TB
 
 PROP = dict(
     title="No unbacked stablecoin",
-    lean_modules=["Comdex.Props.C02"],
+    lean_modules=["Comdex.Props.C02", "Comdex.Props.C02Effects"],
+    gen=["effects"],
     namespaces=["Comdex.C02"],
     required_theorems=["Comdex.C02.supply_eq_principal", "Comdex.C02.supply_le_principal", "Comdex.C02.supply_moves_with_principal",
                        "Comdex.C02.mint_delivers_create", "Comdex.C02.mint_delivers_draw", "Comdex.C02.mint_delivers_stable",
-                       "Comdex.C02.esmVault_registers_principal", "Comdex.C02.esmBurn_burns_registered"],
+                       "Comdex.C02.esmVault_registers_principal", "Comdex.C02.esmBurn_burns_registered",
+                       # the regenerated mint / burn sites of the vault handlers are the model's (Props/C02Effects.lean, on top of C01Effects)
+                       "Comdex.C02.supply_create", "Comdex.C02.supply_draw", "Comdex.C02.supply_repay", "Comdex.C02.supply_close",
+                       "Comdex.C02.supply_depositAndDraw", "Comdex.C02.supply_stableCreate", "Comdex.C02.supply_stableDeposit",
+                       "Comdex.C02.supply_stableWithdraw", "Comdex.C02.supply_untouched", "Comdex.C02.vault_mint_burn_sites"],
     harness_tests=["TestC01"],
     monitors=["supply_eq_principal", "mint_delivers"],
-    trusted_base=[KERNEL_TB, HARNESS_TB, DEC_TB, VAULT_TB],
+    trusted_base=[KERNEL_TB, HARNESS_TB, DEC_TB, VAULT_TB, EFFECTS_TB],
     assumptions=VAULT_ASSUME + ["supply minted outside the vault module (test funding) is tracked as a ghost quantity extSupply; for an asset minted only through vaults it is zero"],
     rule="same generated histories as C01 (every sequence mixes asset decimal scales 10^0..10^18 and zero / non-zero draw-down, closing and "
          "stability fees); distinct = distinct trace text, non-trivial = at least one message accepted",
